@@ -2,8 +2,8 @@
 # tools/try_patch.sh <patch.diff> <ID> [ID...]  — apply a patch to a PRIVATE copy of /repo (scratch /tmp/w-try, private
 # harness + target) and run the quick checks there; /repo and /verif are not touched.
 PATCH="$(readlink -f "$1")"; shift
-/verif/tools/mkscratch.sh try >/dev/null || exit 2
-D=/tmp/w-try; source $D/env.sh; export CARGO_BUILD_JOBS=8 VERIF_THREADS=${VERIF_THREADS_TRY:-8}
+N="${TRY_NAME:-try}"; /verif/tools/mkscratch.sh "$N" >/dev/null || exit 2
+D=/tmp/w-$N; source $D/env.sh; export CARGO_BUILD_JOBS=8 VERIF_THREADS=${VERIF_THREADS_TRY:-8}
 (cd $D/repo && git apply "$PATCH") || { echo "APPLY FAIL $PATCH"; exit 2; }
 (cd $D/harness && cargo build --release --offline >/dev/null 2>&1) || { echo "BUILD FAIL"; exit 2; }
 for id in "$@"; do
